@@ -14,13 +14,20 @@ description, children and effective features (`SameTs`, `Spec/MergeSelf.lean`). 
 The statement without the hypothesis `hw` is false:
 `json_full_ts_same_as_given_false` below (kernel-checked, `Proofs/EmbeddedTsRefute.lean`); every clause of `Writable`
 is forced by an evaluated counterexample (`Proofs/EmbeddedTsCounter.lean`), each reproduced on the implementation.
-`NoPercentNames` is not used by the proof: it marks the region (feature names starting with `%`) in which the model of the
-`%TYPES` reader/writer is known not to follow the code, so the theorem does not speak about it.
+The hypothesis `hpc : NoPercentNames` (no feature name starts with `%`) is needed as well: a `%TYPES` entry is ONE JSON
+object holding the reserved members `%NAME`, `%SUPER_TYPE`, `%DESCRIPTION` and one member per feature, and the reader skips
+every member whose key starts with `%` when it creates the features.  A feature `%foo` is lost on load, a feature
+`%DESCRIPTION` / `%SUPER_TYPE` replaces the description / the supertype name in the document (the reader then takes the
+declaration for the description — the model stops there with `NotImplementedError`: it has no `dict` descriptions — or
+raises `TypeError`), a feature `%NAME` makes `to_json` raise `TypeError`.  The model follows the code there
+(`renderTypeDecl`, `renderTypeDecls`, `loadEmbeddedTs`); the instances are evaluated in `Proofs/EmbeddedTsPctDemo.lean`
+(each satisfies `UserOnlyNoDoc` and `Writable`) and were reproduced on the implementation, modes FULL and MINIMAL.
 -/
 import CassisModel.Proofs.EmbeddedTs
 import CassisModel.Proofs.EmbeddedTsDemo
 import CassisModel.Proofs.EmbeddedTsRefute
 import CassisModel.Proofs.EmbeddedTsCounter
+import CassisModel.Proofs.EmbeddedTsPctDemo
 
 namespace Cassis.Json
 open Cassis.TS
@@ -34,12 +41,12 @@ def UserOnlyNoDoc (K : Consts) (ops : List TsOp) : Prop :=
 /-- **the embedded FULL type system reproduces the original** (for type systems the `%TYPES` format can carry) -/
 theorem json_full_ts_same (ops : List TsOp) (h : UserOnlyNoDoc Gen.consts ops)
     (hw : Writable Gen.consts (ops.foldl (applyOp Gen.consts) Gen.builtinTS))
-    (_hpc : NoPercentNames (ops.foldl (applyOp Gen.consts) Gen.builtinTS))
+    (hpc : NoPercentNames (ops.foldl (applyOp Gen.consts) Gen.builtinTS))
     (cass : List Cas) (ci : Nat) (hp : Heap) (doc : JDoc) (st : Traverse.St)
     (hsave : saveJson Gen.consts (ops.foldl (applyOp Gen.consts) Gen.builtinTS) cass ci hp .full = .ok (doc, st)) :
     ∃ ts', loadTs Gen.consts Gen.builtinTS true doc = .ok ts' ∧
       SameTs (ops.foldl (applyOp Gen.consts) Gen.builtinTS) ts' :=
-  json_full_ts_same_aux ops h hw cass ci hp doc st hsave
+  json_full_ts_same_aux ops h hw hpc cass ci hp doc st hsave
 
 /-- without `Writable` the statement is false (`create_type("x.A", "uima.cas.TOP", description="")`: the empty
     description is not written) -/
@@ -54,12 +61,13 @@ theorem json_full_ts_same_needs_writable :
 /-! Non-vacuity: the hypotheses hold on a history with a chain, a type without namespace, a user subtype of
 `uima.cas.String`, a subtype of DocumentAnnotation, a feature redefined identically on a subtype, the reserved feature
 name `self`, array ranges with and without element type, `multipleReferencesAllowed` (`Proofs/EmbeddedTsDemo.lean`);
-`Writable` is decidable and evaluated by the kernel. -/
+`Writable` and `NoPercentNames` are decidable and evaluated by the kernel. -/
 example : UserOnlyNoDoc Gen.consts demoOps ∧
     Writable Gen.consts (demoOps.foldl (applyOp Gen.consts) Gen.builtinTS) ∧
+    NoPercentNames (demoOps.foldl (applyOp Gen.consts) Gen.builtinTS) ∧
     ∃ doc st, saveJson Gen.consts (demoOps.foldl (applyOp Gen.consts) Gen.builtinTS) [Cas.empty] 0 [] .full = .ok (doc, st) := by
   rw [demo_eq]
-  exact ⟨⟨demo_userOnly, demo_noDoc⟩, demo_writable, demo_save⟩
+  exact ⟨⟨demo_userOnly, demo_noDoc⟩, demo_writable, demo_noPct, demo_save⟩
 
 example : ∃ doc st ts', saveJson Gen.consts demoTs [Cas.empty] 0 [] .full = .ok (doc, st) ∧
     loadTs Gen.consts Gen.builtinTS true doc = .ok ts' ∧ SameTs demoTs ts' := demo_full_ts_same
